@@ -75,7 +75,7 @@ def run_bdd_history(item, pid, wdir, with_model=True, profile="release"):
                                      % (d2[0] + 1, d2[2][:80], lines[0], d2[3][:80], v[0], d2[1]))
             os.remove(vp)
     # keep the disk small: passing histories are deleted
-    if not res["oracle"] and res.get("canon") is not False:
+    if not res["oracle"] and res.get("canon") is not False and (with_model or impl["status"] == "ok"):
         try:
             os.remove(hp)
         except OSError:
@@ -192,9 +192,23 @@ def run_property(pid, tier, seed, spec):
         for k, r in enumerate([r for r in cres if not r["agree"] and not r["oracle"]][:2]):
             rp = H.write_hist(os.path.join(H.WORK, "replays", "%s-collision-diff-%d.hist" % (pid, k)), [l.rstrip("\n") for l in open(r["path"])])
             diffs.append({"replay": rp, "history": r["name"], "what": "crate and model disagree on crafted-collision history %s: %r" % (r["name"], r["diff"])})
+    # histories at a scale the extracted model cannot follow (tens of thousands of nodes): the crate alone, all oracles on,
+    # release and debug builds (overflow checks); an oracle failure of this property or a crash is a concrete failing input
+    sitems = list(R.scale_histories(pid, tier, seed))
+    sres = []
+    for prof in ("release", "debug"):
+        part, _ = H.pmap_until(lambda it: dict(run_bdd_history(it, pid, wdir, with_model=False, profile=prof), profile=prof), sitems,
+                               lambda r: bool(r["oracle"]) or r["impl_status"] != "ok", enough=2)
+        sres += part
+    cov["scale_histories"] = {"histories": len(sitems), "profiles": ["release", "debug"],
+                              "lines": sum(len(ls) for (_, ls, _) in sitems), "failing": sum(1 for r in sres if r["oracle"] or r["impl_status"] != "ok")}
+    for k, r in enumerate([r for r in sres if r["oracle"] or r["impl_status"] != "ok"][:2]):
+        rp = H.write_hist(os.path.join(H.WORK, "replays", "%s-scale-%d.hist" % (pid, k)), [l.rstrip("\n") for l in open(r["path"])])
+        what = (r["oracle"][0] if r["oracle"] else "ORACLE %s the crate ended with %s on a large history" % (pid, r["impl_status"])) + " [%s build]" % r["profile"]
+        failures.append({"replay": rp, "what": what, "history": r["name"], "lines": r["nlines"]})
     cov["failures"] = failures
     cov["diffs"] = diffs
-    cov["coq_cross_checked"] = coq_cross_check(pid, items, wdir, 3 if tier == "quick" else 12)
+    cov["coq_cross_checked"] = coq_cross_check(pid, items, wdir, 12 if tier == "quick" else 60)
     if cov["coq_cross_checked"].get("mismatch"):
         diffs.append({"replay": cov["coq_cross_checked"]["mismatch"], "history": "coq-cross-check",
                       "what": "extracted OCaml model and in-kernel vm_compute evaluation disagree"})
